@@ -75,6 +75,11 @@ QUICK_PAIR_SOLS = ["hard", "pure", "sea", "amd"]
 TRI_SOLS = ["hard", "sea", "amd"]
 QUAD_SOLS = ["hard", "sea"]
 TEMPS = {"quick": [25.0], "thorough": [25.0, 10.0, 80.0]}
+# the specific-ion-interaction databases run the same assemblage code through their own model drivers (model_pz /
+# model_sit): minerals that both define, on the solutions whose elements both know
+MODEL_DBS = {"pitzer.dat": ["Calcite", "Gypsum", "Anhydrite", "Halite", "Dolomite", "CO2(g)"],
+             "sit.dat": ["Calcite", "Gypsum", "Anhydrite", "Halite", "Quartz", "CO2(g)"]}
+MODEL_SOLS = ["pure", "nacl", "sea", "brine"]
 
 REACTIONS = {
     "none": "",
@@ -259,8 +264,9 @@ def judge_pp(rows, phases, pt):
 class Group:
     """Runs lattice points in one instance; after a failed run the database is re-loaded (fresh engine state)."""
 
-    def __init__(self):
-        self.s = phr.Session(DBNAME)
+    def __init__(self, db=None):
+        self.db = db or DBNAME
+        self.s = phr.Session(self.db)
         self.n = 0
 
     def run(self, text, strings=""):
@@ -268,7 +274,7 @@ class Group:
         try:
             r = self.s.run(text, strings=strings)
         except (drv.DrvDied, drv.DrvTimeout) as e:
-            self.s = phr.Session(DBNAME)
+            self.s = phr.Session(self.db)
             return {"rc": None, "err": "DRIVER DIED: %s %s" % (type(e).__name__, str(e)[:100]), "sel": {}, "death": True}
         self.n += 1
         if r["rc"] != 0:
@@ -280,7 +286,7 @@ def run_points(case, texts_and_judges):
     """Common body of the lattice parts.  texts_and_judges: iterable of (point id, input text, judge function(result) ->
     RowJudge, strings).  Returns the result dict of the explorer."""
     single = case.get("point") is not None
-    g = Group()
+    g = Group(case.get("db"))
     out = {"case": case, "problems": [], "ops": 0, "points": 0, "completed": 0, "nc": 0, "outcomes": set(), "diagnostics": [],
            "nc_samples": [], "worst": {"si": 0.0, "site": 0.0, "act": 0.0}, "samples": [], "deaths": 0}
     cand = {}
@@ -746,6 +752,16 @@ def pp_cases(tier):
         cs = [{"part": "pp", "sol": s, "T": 25.0, "phases": sub, "scheme": "retarget"} for s in sols for sub in subsets(k)]
         bounds.append(("pp retarget: subsets of size %d (%d) x solutions %s x 25 C: assemblage run with shifted targets, then with (target,moles)^%d x restriction (%s) = %d points each, second run judged" % (
             k, len(subsets(k)), sols, k, F1, len(list(pp_points(k, "full-f1")))), cs))
+    # the other aqueous models (databases with a PITZER / SIT block)
+    for db, phs in MODEL_DBS.items():
+        ks = (1,) if tier == "quick" else (1, 2)
+        for k in ks:
+            msols = MODEL_SOLS if (tier != "quick" or k == 1) else ["sea"]
+            scheme = "full" if k == 1 else "full-f1"
+            subs = [list(c) for c in itertools.combinations(phs, k)]
+            cs = [{"part": "pp", "sol": s, "T": 25.0, "phases": sub, "scheme": scheme, "db": db} for s in msols for sub in subs]
+            bounds.append(("pp %s: subsets of size %d (%d) of %s x solutions %s x 25 C x (target,moles)^%d x restriction = %d points each" % (
+                db, k, len(subs), phs, msols, k, len(list(pp_points(k, scheme)))), cs))
     # restricted single phases over four temperature steps, incremental or not (every step judged against its own start)
     ssols = ["hard", "sea"] if tier == "quick" else SOL_ORDER
     mins = [p for p in PHASES if p not in GASES]
